@@ -148,6 +148,20 @@ fn round_trip<T: DeserializeOwned + Serialize + PartialEq>(v: &T) -> Value {
     o
 }
 
+/// {doc}: a layout / link value built through the public builders (not parsed), then the same
+/// writer round trips as for parsed values
+pub fn api_rt(case: &Value) -> Value {
+    match guarded(|| crate::api_build::build(&case["doc"])) {
+        Ok(Ok(meta)) => {
+            let mut o = round_trip(&meta);
+            o["built"] = json!(true);
+            o
+        }
+        Ok(Err(e)) => json!({"not_expressible": e}),
+        Err(p) => json!({"panic": p}),
+    }
+}
+
 /// {type, text}
 pub fn serde_op(case: &Value) -> Value {
     let data = bytes_of(&case["text"]);
